@@ -440,6 +440,23 @@ class Run:
                 data = out.getvalue()
                 self.jpg_alias = True
                 acc.hit("reopen-with-image/jpg-alias")
+            if op.get("relocate"):
+                # the deck as another producer lays it out: image parts outside /ppt/media (OPC leaves the place to the producer);
+                # they are image parts all the same - the same bytes added later must be recognised
+                from vlib import histories, opcx
+
+                pk = opcx.Pkg.from_bytes(data)
+                mapping = {}
+                for k, n in enumerate(image_partnames(pk)):
+                    if n.startswith("/ppt/media/") and "." in n:
+                        mapping[n] = (("/ppt/images/pic%d." if op["relocate"] == 1 else "/media/img%d.") % (k + 1)) + n.rsplit(".", 1)[1]
+                if mapping:
+                    moved = histories.rename_members(data, mapping)
+                    if opcx.closure_problems(opcx.Pkg.from_bytes(moved)) == opcx.closure_problems(pk):
+                        data = moved
+                        acc.hit("reopen-with-images-outside-ppt-media")
+                    else:
+                        acc.count("relocation_selfcheck_failed")
             prs = pptx.Presentation(io.BytesIO(data))
             self.reopened = True
             self.check_blobs(prs)
@@ -673,7 +690,7 @@ def gen_history(i):
     ops = [{"op": "slide"}]
     for j in range(n):
         if j == cut:
-            ops.append({"op": "reopen", "gap": rnd.randrange(1 << 30) if rnd.random() < 0.6 else None, "jpg_alias": rnd.random() < 0.4})
+            ops.append({"op": "reopen", "gap": rnd.randrange(1 << 30) if rnd.random() < 0.6 else None, "jpg_alias": rnd.random() < 0.4, "relocate": rnd.choice([0, 0, 0, 1, 2])})
             forced = addition(ENTRY[i % len(ENTRY)])
             if rnd.random() < 0.8:  # the forced entry point re-adds an image from before the re-open
                 forced["img"] = rnd.choice(used[:-1]) if used[:-1] else forced["img"]
@@ -686,7 +703,7 @@ def gen_history(i):
         elif r < 0.16:
             ops.append({"op": "save"})
         elif r < 0.24:
-            ops.append({"op": "reopen", "gap": rnd.randrange(1 << 30) if rnd.random() < 0.5 else None, "jpg_alias": rnd.random() < 0.4})
+            ops.append({"op": "reopen", "gap": rnd.randrange(1 << 30) if rnd.random() < 0.5 else None, "jpg_alias": rnd.random() < 0.4, "relocate": rnd.choice([0, 0, 0, 1, 2])})
         else:
             ops.append(addition(rnd.choice(["pic"] * 6 + ["grp", "ph", "movie", "ole"])))
     return {"recipes": recipes, "ops": ops}
